@@ -68,7 +68,7 @@ class K:
         return '%sextern "C" void %s(%s) { %s }' % (self.pre + '\n' if self.pre else '', self.name, ps, self.body)
 
     def argspec(self):
-        return [(p[0], p[2]) for p in self.params]
+        return [(p[0], p[2], p[1].endswith('bool') or '<' in p[1] and ', bool,' in p[1]) for p in self.params]
 
     def argsize(self):
         return {p[0]: p[3] for p in self.params}
